@@ -316,8 +316,8 @@ def _order_eig_policy(ctx):
     return P(model_overwrite=True, overwrite_table=_OW['tab'])
 
 
-@scenario('C06', 'routines', lambda tier: [{'routine': r} for r in ROUTINES])
-def routines(ctx, routine):
+@scenario('C06', 'routines', lambda tier: [{'routine': r, 'rank': k, 'then': q} for r in ROUTINES for k in (2, 1) for q in ('ortho_left()', 'ortho_right()')])
+def routines(ctx, routine, rank, then):
     """one call of a solver / integrator / data-driven routine, then one in-place operation on each returned train: every argument and every other
     returned train keeps value and metadata; every returned train is consistent"""
     TT = ctx.R.TT
@@ -327,7 +327,8 @@ def routines(ctx, routine):
         raise SkipTV()
     dims = [2, 2]
     sA = {'rows': dims, 'cols': dims, 'ranks': [1, 1, 1]}
-    sx = {'rows': dims, 'cols': [1, 1], 'ranks': [1, 2, 1]}
+    sx = {'rows': dims, 'cols': [1, 1], 'ranks': [1, rank, 1]}
+    sy = {'rows': dims, 'cols': [1, 1], 'ranks': [1, 3 if routine == 'ode.hod previous_value' else rank, 1]}
 
     def body():
         from .C15 import _funcs
@@ -341,7 +342,7 @@ def routines(ctx, routine):
         C = TT(mk_cores(ctx, 'A', sA, False))
         A = C + C.transpose()
         x = TT(mk_cores(ctx, 'x', sx, False))
-        y = TT(mk_cores(ctx, 'y', sx, False))
+        y = TT(mk_cores(ctx, 'y', sy, False))
         args = {'A': A, 'x': x, 'y': y}
         h = ctx.scalar('h', lo=(0,))
         outs = []
@@ -419,7 +420,7 @@ def routines(ctx, routine):
         lives += results
         # value of the arguments after the call == value of fresh copies of the same symbolic inputs
         A0 = TT(mk_cores(ctx, 'A', sA, False)); A0 = A0 + A0.transpose()
-        fresh = {'A': A0, 'x': TT(mk_cores(ctx, 'x', sx, False)), 'y': TT(mk_cores(ctx, 'y', sx, False))}
+        fresh = {'A': A0, 'x': TT(mk_cores(ctx, 'x', sx, False)), 'y': TT(mk_cores(ctx, 'y', sy, False))}
         for k_, o in args.items():
             if _consistent(o) and _meta(o) == _meta(fresh[k_]):
                 ctx.eq('%s: argument %s unchanged by the call' % (routine, k_), _open_full(ctx, o), _open_full(ctx, fresh[k_]))
@@ -427,7 +428,7 @@ def routines(ctx, routine):
                 ctx.fail('%s: metadata of argument %s changed by the call' % (routine, k_), '%s -> %s' % (_meta(fresh[k_]), _meta(o)))
         # one in-place operation on each returned train
         for rl in results:
-            for qname in ('ortho_left()', 'ortho_right()'):
+            for qname in (then,):
                 inpl = _inplace_ops(ctx)
                 ok, _ = _applicable(inpl[qname], rl.obj, {})
                 if ok:
